@@ -140,6 +140,23 @@ class HunksFam(Family):
             for tup in itertools.product(SMALL, repeat=n):
                 for ig in (False, True):
                     yield dict(kind='exh%d' % n, lines=[hx(x) for x in tup], ig=ig)
+        # size boundaries: hunks with hundreds / thousands of body lines, very long lines, many hunks
+        for n in (255, 256, 257, 1023, 1024, 1025, 4097):
+            body = [(' +-'[j % 3], b'l%d' % j) for j in range(n)]
+            on = sum(1 for k, _ in body if k in ' -')
+            mn = sum(1 for k, _ in body if k in ' +')
+            h = dict(os=7, ms=9, body=body, on=on, mn=mn, omit_on=False, omit_mn=False, ctx=None, markers=[])
+            for ig in (False, True):
+                yield dict(kind='ast', lines=[hx(x) for x in render_hunk(h)], ig=ig, ast=[self._ast_json(h)], seps=[[], []])
+        longline = dict(os=1, ms=1, body=[('-', b'x' * 8192), ('+', b'y' * 65537), (' ', b'')], on=2, mn=2, omit_on=False,
+                        omit_mn=False, ctx=b'c' * 9000, markers=[])
+        yield dict(kind='ast', lines=[hx(x) for x in render_hunk(longline)], ig=False, ast=[self._ast_json(longline)], seps=[[], []])
+        many = [dict(os=j + 1, ms=j + 1, body=[('-', b'a'), ('+', b'b')], on=1, mn=1, omit_on=(j % 2 == 0), omit_mn=False, ctx=None,
+                     markers=[]) for j in range(300)]
+        ml = []
+        for h in many:
+            ml += render_hunk(h)
+        yield dict(kind='ast', lines=[hx(x) for x in ml], ig=True, ast=[self._ast_json(h) for h in many], seps=[[] for _ in range(301)])
         for i in range(800 if tier == 'quick' else 20000):
             hs = [gen_hunk(rng) for _ in range(rng.randint(1, 4))]
             seps = [[rng.choice(SEPS) for _ in range(rng.choice([0, 0, 1, 2]))] for _ in range(len(hs) + 1)]
@@ -211,6 +228,7 @@ class HunksFam(Family):
                 for ig in (False, True):
                     yield dict(kind='damage-flip', lines=[hx(x) for x in dl], ig=ig, want=want)
 
+    # (size boundaries are generated in cases(): see 'ast-big')
     @staticmethod
     def _ast_json(h):
         d = dict(h)
